@@ -239,7 +239,11 @@ func (l *Loader) updates() {
 			// notify that we are warmed, but one time only
 			warm.Do(func() { close(l.warm) })
 		case q := <-l.query:
-			go func() {
+			// the query runs in its own goroutine with the providers and filters that are current
+			// now, handed over as arguments.  Closing over the loop's variables instead would let it
+			// read them while a later configuration update reassigns them: a data race, and a lookup
+			// that can see the providers of one configuration with the filters of another.
+			go func(q queryGet, providers []tq.SecretProvider, prefixDeny, prefixAllow *prefixFilter) {
 				// prefixFilter will log to prom counters and also act as a quick fail for prefixes that do not pass
 				// muster.  this pevents unnecessary load on scanning SecretProviders
 				if prefixDeny.deny(q.remote) {
@@ -256,7 +260,7 @@ func (l *Loader) updates() {
 				q.cb <- secretProvider{secret: secret, handler: handler, err: err}
 				close(q.cb)
 				buildGet.Inc()
-			}()
+			}(q, providers, prefixDeny, prefixAllow)
 		}
 	}
 }
